@@ -331,3 +331,8 @@ package promapi
 //@   assumed callee-requires promapi.AppendSampleToRanges
 //@   ensures forall k model.LabelName :: !has(sample.Metric, k)
 //@   ensures len(sample.Values) == 0
+
+// C15: the error a failover group returns wraps exactly one error, the one of the upstream that ended the request:
+// errors.As / errors.Is (and so IsUnavailableError, problemFromError) classify that error and no earlier one.
+//@ func FailoverGroupError.Unwrap [C15]
+//@   ensures result == e.err
